@@ -29,6 +29,7 @@ from engine.common import setup_paths
 from ref.sem import Sem
 
 PROPERTY = 'C02'
+SECOND_PASS = ('run_stripe',)    # see engine/common._run_shard
 LEVEL = 'exploration'
 EXHAUSTIVE = True
 RULE = ('every labelled simple graph with 0..5 vertices crossed with every parameter value of '
@@ -1110,6 +1111,8 @@ def shards(tier, seed):
 def run_stripe(args, R):
     tune_malloc()
     it = itertools.islice(cases(args['tier'], args['seed']), args['i'], None, args['k'])
+    if args.get('reverse'):
+        it = reversed(list(it))
     per_key = {}
     for case in it:
         R.nt = False
